@@ -539,6 +539,11 @@ def run(ctx):
     r4(ctx, fs)
     r5(ctx, fs)
     r7(ctx, fs)
+    # R8 / R9: the last hop of the routing chain, core::<rel> -> theory constructor of the same relation (shared with C11.R6 and C13.R5)
+    from .C11 import r6 as arith_routes
+    from .C13 import r5 as bool_routes
+    arith_routes(ctx, fs, rid='C16.R8')
+    bool_routes(ctx, fs, rid='C16.R9')
 
 
 # ---- R3 / R4b: FIRST sets by abstract interpretation of the non-terminals over the symbol of the current token -----------------
